@@ -37,8 +37,8 @@ CHECKS = {
         technique='Lean 4 proof over a hand-written executable model, tied to /repo on every run by differential correspondence (compiled Lean driver vs real code on generated inputs) and regenerated source tables; independent Python oracle searches for failing inputs',
         ref='§4 C05'),
     'C06': dict(
-        text="Theorems: == is reflexive on every object of a well-formed heap (value comparison with defaults filled in + lockstep sharing walk both succeed); different callable / node kind / Buildable type / argument set / missing argument / sharing on either side each force False. 'Never raises' = totality of the model function, tied by correspondence. Correspondence: generated pairs and triples in both directions; oracle checks symmetry, transitivity, history/dict-order/default insensitivity, congruence with build.",
-        note=TB + 'The value comparison is proved symmetric and transitive. Partial: symmetry/transitivity of the sharing walk and invariance under dict insertion order are not proved (correspondence + oracle only).',
+        text="Theorems: == is an equivalence relation on well-formed heaps (reflexive, symmetric, transitive - values and sharing); the sharing walk (a DFS with two mutable maps) succeeds exactly when a one-to-one closed correspondence between the objects of the two configurations exists (soundness + completeness), hence symmetry although the two directions visit children in different orders, transitivity by composing correspondences restricted to value-equal pairs, and independence of dict / argument insertion order; different callable / node kind / Buildable type / argument set / missing argument / sharing on either side each force False. 'Never raises' = totality of the model function, tied by correspondence. Correspondence: generated pairs and triples in both directions; oracle checks symmetry, transitivity, history/dict-order/default insensitivity, congruence with build.",
+        note=TB + 'Partial: congruence with build (equal configurations build structurally identical graphs) is decided by the oracle only.',
         technique='Lean 4 proof over a hand-written executable model, tied to /repo on every run by differential correspondence (compiled Lean driver vs real code on generated inputs) and regenerated source tables; independent Python oracle searches for failing inputs',
         ref='§4 C06'),
     'C07': dict(
@@ -78,7 +78,7 @@ CHECKS = {
         ref='§4 C13'),
     'C14': dict(
         text='Theorems: after set_tagged every selected argument of every reachable Buildable holds the value, no other argument, no tag/callable/signature anywhere and no unreachable object changed; list_tags is exactly the union of reachable tag sets; add_tag/remove_tag/clear_tags touch exactly their tag. Correspondence: tag edit histories vs ArgStore model; on DAGs set_tagged, tag-selection replace and list_tags vs the heap model (Buildables still reachable afterwards).',
-        note=TB + 'Tags survive deep/shallow copies and diff application (theorems through the C07/C10 models). Partial: survival under serialization and TaggedValue build are decided by the oracle.',
+        note=TB + 'Tags survive deep/shallow copies, diff application and dump_json/load_json (theorems through the C07 / C10 / C08+C09 models). Partial: TaggedValue build is decided by the oracle.',
         technique='Lean 4 proof over a hand-written executable model, tied to /repo on every run by differential correspondence (compiled Lean driver vs real code on generated inputs) and regenerated source tables; independent Python oracle searches for failing inputs',
         ref='§4 C14'),
     'C15': dict(
